@@ -99,7 +99,8 @@ b("loader-strict-false", "C04 C13", API, "        return cls(records, **kwargs)\
 b("model-construct", "C04", API, "record if isinstance(record, Record) else Record(**record)", "record if isinstance(record, Record) else Record.model_construct(**record)", "C04-D3")
 b("dup-cross-side", "C04", API, "        for uri_prefix, up2 in itt.product(record_1._all_uri_prefixes, record_2._all_uri_prefixes)\n", "        for uri_prefix, up2 in itt.product(record_1._all_uri_prefixes, record_2._all_prefixes)\n", "C04-D2")
 b("bimap-swapped", "C04", API, "return {r.uri_prefix: r.prefix for r in self.records}", "return {r.prefix: r.uri_prefix for r in self.records}", "C04-D5")
-b("index-built-before-check", "C04", API, "        records = sorted(records, key=lambda r: r.prefix)\n        if strict:\n", "        records = sorted(records, key=lambda r: r.prefix)\n        self.prefix_map = _get_prefix_map(records)\n        if strict:\n", "C04-D1")
+# a table assigned BEFORE the duplicate check is unobservable: when the check raises, __init__ hands out no object
+t("twin-index-built-before-check", "C04", API, "        records = sorted(records, key=lambda r: r.prefix)\n        if strict:\n", "        records = sorted(records, key=lambda r: r.prefix)\n        self.prefix_map = _get_prefix_map(records)\n        if strict:\n")
 t("twin-dup-explicit-cover", "C04", API, "        for prefix, p2 in itt.product(record_1._all_prefixes, record_2._all_prefixes)\n", "        for prefix, p2 in itt.product([record_1.prefix, *record_1.prefix_synonyms], [record_2.prefix, *record_2.prefix_synonyms])\n")
 t("twin-dup-set-intersection", "C04", API, "    return [\n        DuplicateSummary(record_1, record_2, prefix)\n        for record_1, record_2 in itt.combinations(records, 2)\n        for prefix, p2 in itt.product(record_1._all_prefixes, record_2._all_prefixes)\n        if prefix == p2\n    ]\n", "    return [\n        DuplicateSummary(record_1, record_2, prefix)\n        for record_1, record_2 in itt.combinations(records, 2)\n        for prefix in sorted(set(record_1._all_prefixes) & set(record_2._all_prefixes))\n    ]\n")
 
